@@ -48,6 +48,10 @@ def main():
     from vlib.common import Ctx
     mod = importlib.import_module('checks.' + a.prop.lower())
     ctx = Ctx(a.prop, a.tier, replay=a.replay)
+    # time budget of the exploration loops (the proof build is not counted): quick 10 min, thorough 40 min
+    import time as _time
+    budget = float(os.environ.get('VERIF_BUDGET_S', '600' if a.tier == 'quick' else '2400'))
+    ctx.deadline = _time.time() + budget
     try:
         rc = run_quiet(mod.main, ctx)
     except SystemExit:
